@@ -39,6 +39,35 @@ class ProbeRec:
         self.exp_all = []  # expected events (model) since creation: (opi, ev)
 
 
+DECLINE = object()
+
+
+def apply_override(how, value, ctx, real=False):
+    """The override functions of the C04 lens; the very same function is
+    installed in ptera (real=True: declining is ABSENT) and used by the model."""
+    decline = DECLINE
+    if real:
+        from ptera.utils import ABSENT
+
+        decline = ABSENT
+    kind = how[0]
+    isint = isinstance(value, int) and not isinstance(value, bool)
+    if kind == "const":
+        return how[1]
+    if kind == "add":
+        return value + how[1] if isint else decline
+    if kind == "ctx_add":
+        c = ctx.get(how[1])
+        if isint and isinstance(c, int) and not isinstance(c, bool):
+            return value + c
+        return decline
+    if kind == "even_const":
+        return how[1] if (isint and value % 2 == 0) else decline
+    if kind == "odd_add":
+        return value + how[1] if (isint and value % 2 == 1) else decline
+    raise ValueError(how)
+
+
 def canon_event(data):
     from ptera.interpret import Capture
 
@@ -70,6 +99,7 @@ class Engine:
         self.opi = -1
         self.ops_done = 0
         self.quarantined = 0
+        self._latest = {}
 
     # -- reporting --------------------------------------------------------------
     def violate(self, inv, detail):
@@ -106,6 +136,22 @@ class Engine:
                 )
             elif kind == "overridable":
                 rec.obj = ptera.probing(*strs, env=env, overridable=True)
+                how = op["how"]
+                fas = op["sels"][0]["focus"].get("as") or op["sels"][0]["focus"]["var"]
+                rec.obj.override(lambda d, how=how, fas=fas: apply_override(how, d.get(fas), d, real=True))
+            elif kind in ("tweak", "rewrite"):
+                from ptera.selector import select
+
+                rec.obj = None
+                sel = select(strs[0], env=env)
+                how = op["how"]
+                fas = op["sels"][0]["focus"].get("as") or op["sels"][0]["focus"]["var"]
+                if kind == "tweak":
+                    rec.overlay = ptera.Overlay.tweaking({sel: how[1]})
+                else:
+                    rec.overlay = ptera.Overlay.rewriting(
+                        {sel: (lambda d, how=how, fas=fas: apply_override(how, d.get(fas), d, real=True))}
+                    )
             elif kind == "overlay":
                 rec.obj = None
                 rec.overlay = self._mk_overlay(op, strs, env, rec)
@@ -323,6 +369,7 @@ class Engine:
         lo = len(sim.tr.events)
         res = {}
         order = [vn for vn in ("ref", "trc", "sys") if vn in sim.v]
+        sim.tr.hook = self.bind_hook if self.overriding_active() else None
         for k, vn in enumerate(order):
             # distinct value ranges are not needed: the twins never see each other
             res[vn] = sim.run(vn, thunk_of(op), tape, faults, box=box)
@@ -346,6 +393,32 @@ class Engine:
         }
         return ob, res
 
+    def bind_hook(self, fn, var, value, act, tracer):
+        """M-py's definition of substitution: the overriders that are active, in
+        activation order, each seeing the original tentative value and the
+        latest (already substituted) context of this activation; the last one
+        that does not decline wins."""
+        lat = self._latest.setdefault(act.id, {})
+        new = value
+        for pid in self.order:
+            rec = self.probes[pid]
+            how = rec.spec.get("how")
+            if not how:
+                continue
+            sel = rec.spec["sels"][0]
+            if sel["levels"][-1]["fn"] != fn or sel["focus"]["var"] != var:
+                continue
+            ctx = {}
+            for cap in sel["levels"][-1].get("caps", []):
+                if cap["var"] in lat:
+                    ctx[cap.get("as") or cap["var"]] = lat[cap["var"]]
+            r = apply_override(how, value, ctx)
+            self.sim.reach("override_applied" if r is not DECLINE else "override_declined")
+            if r is not DECLINE:
+                new = r
+        lat[var] = new
+        return new
+
     def check_model(self, ob):
         r = ob["res"]
         if "ref" in r and "trc" in r and not self.overriding_active():
@@ -358,11 +431,7 @@ class Engine:
         return True
 
     def overriding_active(self):
-        return any(
-            self.probes[p].spec.get("kind") == "overridable"
-            or self.probes[p].spec.get("overrides")
-            for p in self.order
-        )
+        return any(self.probes[p].spec.get("how") for p in self.order)
 
     # -- main loop ----------------------------------------------------------------
     def step(self, op):
@@ -519,6 +588,14 @@ class Engine:
                 self.violate(
                     "C01.same_envlog",
                     {"op": op, "ref": r["ref"]["log"], "sys": r["sys"]["log"]},
+                )
+        if "trc" in r and "sys" in r and self.overriding_active() and not raised_now:
+            if r["sys"]["out"] != r["trc"]["out"] or r["sys"]["log"] != r["trc"]["log"]:
+                self.violate(
+                    "C04.substitution",
+                    {"op": op, "model": r["trc"], "sys": r["sys"],
+                     "overriders": [[p, self.probes[p].strs, self.probes[p].spec.get("how")]
+                                    for p in self.order if self.probes[p].spec.get("how")]},
                 )
         if ok_model:
             for pid in list(self.probes):
